@@ -77,7 +77,8 @@ def check_ufline(line, sender, t0, t1):
         return "From_ line date unparsable: %r" % date
     if DAYS[(ts // 86400 + 4) % 7] != m.group(1):
         return "From_ line weekday wrong: %r" % date
-    if t0 is not None and not (t0 - 2 <= ts <= t1 + 2):
+    # generous window: the point is "delivery date, in GMT" (a local-time or epoch-0 date is hours off), not timing
+    if t0 is not None and not (t0 - 300 <= ts <= t1 + 300):
         return "From_ line date %d is not the (GMT) delivery time [%d,%d]" % (ts, t0, t1)
     return None
 
